@@ -484,6 +484,12 @@ def listLoop : Nat → List Nat → Option (List (List Nat × List Nat))
 
 def parseList (s : List Nat) : Option (List (List Nat × List Nat)) := listLoop (s.length + 1) s
 
+/-- The optional `=member` after a dictionary key (`val = "?1"` when there is no '='). -/
+def dictValue (s1 : List Nat) : Option (List Nat × List Nat) :=
+  match s1 with
+  | 61 :: s1' => consumeMember s1'
+  | _ => some (boolTrueText, s1)
+
 /-- Loop of `ParseDictionary`: callbacks (key, val, param). -/
 def dictLoop : Nat → List Nat → Option (List (List Nat × List Nat × List Nat))
   | 0, _ => none
@@ -494,11 +500,7 @@ def dictLoop : Nat → List Nat → Option (List (List Nat × List Nat × List N
       match consumeKey s with
       | none => none
       | some (key, s1) =>
-        let valRes : Option (List Nat × List Nat) :=
-          match s1 with
-          | 61 :: s1' => consumeMember s1'
-          | _ => some (boolTrueText, s1)
-        match valRes with
+        match dictValue s1 with
         | none => none
         | some (val, s2) =>
           match consumeParameter s2 with
